@@ -190,7 +190,8 @@ let k3_line (line : string) : string =
   let o = exec c in
   (* parameters as they stand after the stages, before the trailing setters *)
   let rec drop_last2 = function [] | [_] | [_; _] -> [] | x :: r -> x :: drop_last2 r in
-  let has_trail = (match List.rev c.c_ops with DNumThreads _ :: _ :: _ :: _ :: _ -> true | _ -> false) in
+  let is_setter = (function DNumThreads _ | DChunkSize _ | DChunkMin _ -> true | _ -> false) in
+  let has_trail = (match List.rev c.c_ops with a :: b :: _ :: _ :: _ -> is_setter a && is_setter b | _ -> false) in
   let omid = exec { c with c_ops = (if has_trail then drop_last2 c.c_ops else c.c_ops); c_term = TCount; c_sched = []; c_fuel = O; c_macro = false; c_panic = None } in
   let all_calls = List.sort call_cmp (List.concat o.o_rlog) in
   let seqlog = if o.o_sequential then str_list call_str (List.concat o.o_rlog) else "-" in
